@@ -21,7 +21,7 @@ from ..timeline import EPS, run_async, run_sync
 UNIT_TIMEOUT = 900  # backstop against a hung unit only; thread-slice subtrees can take minutes on a loaded machine
 LEVEL = "exploration"
 RULE = (
-    "TIME machine variants (one delay, two delays, two same-named timed states with the same delay in sibling regions, a guarded + fallback candidate list under one delay key, targetless delay + second delay, named computed delay, compound timed state re-entered through a descendant target, guarded "
+    "TIME machine variants (one delay, two delays, two same-named timed states with the same delay in sibling regions, a guarded + fallback candidate list under one delay key, two delay keys resolving to the same duration, targetless delay + second delay, named computed delay, compound timed state re-entered through a descendant target, guarded "
     "delay true/false/raise) x environment scripts = all sequences up to the length bound over {LEAVE, BACK, SELF "
     "(re-enter), NOP, STOP, SLOW (an action that keeps the interpreter busy across a deadline), SLOWSELF (the busy action first "
     "queues a re-entering event, so the expiry lands behind it), CHG (named delay)} with non-decreasing times from a grid straddling the "
@@ -42,7 +42,7 @@ ENGINES = ("sync", "async")
 D1, D2 = 0.25, 0.375
 GRID = (0.125, 0.25, 0.3125, 0.375, 0.5)
 HORIZON = 1.5
-VARIANTS = ("one", "two", "stay", "named", "g_true", "g_false", "g_raise", "compound", "compound-stay", "twin", "cand_true", "cand_false")
+VARIANTS = ("one", "two", "stay", "named", "g_true", "g_false", "g_raise", "compound", "compound-stay", "twin", "cand_true", "cand_false", "same-delay")
 
 
 async def slow_action(interp, ctx, event, action_def):
@@ -117,6 +117,10 @@ def make_cfg(variant: str) -> Dict[str, Any]:
         after["375"] = {"target": "C", "actions": ["tr:a2"]}
     elif variant == "named":
         after["DLY"] = {"target": "B", "actions": ["tr:a1"]}
+    elif variant == "same-delay":
+        # two DIFFERENT delay keys of one state that resolve to the same duration (a literal and a named delay): independent
+        after["250"] = {"actions": ["tr:a1"]}
+        after["DLY"] = {"actions": ["tr:a2"]}
     elif variant.startswith("cand_"):
         # a candidate LIST under one delay key (guarded + fallback, both targetless): one delivery, one winner, once
         after["250"] = [{"guard": "g1", "actions": ["tr:a1"]}, {"actions": ["tr:a1"]}]
@@ -148,7 +152,7 @@ def make_cfg(variant: str) -> Dict[str, Any]:
 
 
 def delays_for(variant: str):
-    if variant == "named":
+    if variant in ("named", "same-delay"):
         return {"DLY": lambda ctx, ev: ctx["d"]}
     return None
 
@@ -257,10 +261,12 @@ def judge(variant: str, engine: str, script, log: List[tuple], d) -> List[Tuple[
 
 
 def _timers(variant: str) -> List[str]:
-    return ["tr:a1", "tr:a2"] if variant in ("two", "stay", "compound-stay", "cand_true", "cand_false") else ["tr:a1"]
+    return ["tr:a1", "tr:a2"] if variant in ("two", "stay", "compound-stay", "cand_true", "cand_false", "same-delay") else ["tr:a1"]
 
 
 def _delay(variant: str, name: str, a: Dict[str, Any]) -> float:
+    if variant == "same-delay":
+        return D1
     if name == "tr:a2":
         return D2
     if variant == "named":
